@@ -16,9 +16,10 @@ ENTRY_OPS = ['entry_push', 'entry_replace', 'entry_remove_relation', 'entry_remo
 REL_OPS = ['set_version', 'unset_version', 'drop_constraint', 'set_archqual', 'set_architectures', 'add_profile', 'relation_remove']
 
 CASES = {
-    'root-ops':  {'ops': ROOT_OPS, 'history': 1, 'cfg': {'entries': 2, 'alternatives': 1, 'no_version': True, 'ws_styles': 4}, 'allow_empty': True},
-    'entry-ops': {'ops': ENTRY_OPS, 'history': 1, 'cfg': {'entries': 2, 'alternatives': 2, 'no_version': True, 'ws_styles': 4}},
+    'root-ops':  {'ops': ROOT_OPS, 'history': 1, 'pad': True, 'cfg': {'entries': 2, 'alternatives': 1, 'no_version': True, 'ws_styles': 4}, 'allow_empty': True},
+    'entry-ops': {'ops': ENTRY_OPS, 'history': 1, 'pad': True, 'cfg': {'entries': 2, 'alternatives': 2, 'no_version': True, 'ws_styles': 4}},
     'rel-ops':   {'ops': REL_OPS, 'history': 1, 'cfg': {'entries': 1, 'alternatives': 2, 'version_kinds': 1, 'ws_styles': 2}},
+    'rel-ops-rich': {'ops': REL_OPS, 'history': 1, 'cfg': {'entries': 1, 'alternatives': 1, 'archqual': True, 'archs': 1, 'negation': False, 'profile_groups': 1, 'profile_terms': 1, 'version_kinds': 1, 'ws_styles': 2}},
     'substvar':  {'ops': ROOT_OPS + ['entry_remove'], 'history': 1, 'cfg': {'entries': 2, 'alternatives': 1, 'no_version': True, 'substvars': True, 'ws_styles': 1}},
     'mixed':     {'ops': ROOT_OPS + ENTRY_OPS + ['set_version', 'set_architectures', 'add_profile', 'relation_remove'], 'history': 2, 'cfg': {'entries': 1, 'alternatives': 1, 'no_version': True, 'ws_styles': 1}},
     'built-entry': {'ops': ['push2', 'entry_remove_relation', 'relation_remove', 'entry_push', 'entry_replace'], 'history': 2, 'cfg': {'entries': 1, 'alternatives': 1, 'no_version': True, 'ws_styles': 1}, 'allow_empty': True},
@@ -33,7 +34,7 @@ class C11(Harness):
     fuel = 400000
     bounds = {'quick': CASES, 'thorough': dict(CASES, seq3=dict(CASES['sequence'], history=3), mixed2={'ops': ROOT_OPS + ENTRY_OPS + REL_OPS, 'history': 2, 'cfg': {'entries': 2, 'alternatives': 2, 'version_kinds': 1, 'ws_styles': 2}})}
     assumptions = ['start states: the empty field or well-formed fields generated as in C10 (no empty entries / trailing comma, so that separator hygiene is attributable to the edits)',
-                   'operations with in-range indices (insert: 0..=len); new relations are built by parsing, by Relation::new and by the builder, each plain or versioned',
+                   'operations with in-range indices (insert: 0..=len); new relations are built by parsing, by Relation::new and by the builder, each plain or versioned; in the one-step families a parsed operand also comes with a trailing space',
                    'after every step: the root prints to text that parses without error to the list-of-lists model, has no doubled/dangling/fused separators, and substitution variables keep their text']
 
     def cases(self, tier): return [dict(v, name=k, order=i) for i, (k, v) in enumerate(self.bounds[tier].items())]
@@ -46,7 +47,8 @@ class C11(Harness):
         vck = e.prog.enum_lookup('relations::VersionConstraint', 'control')
         vopt = SOME(Agg('tuple', [EnumV(vck, 'GreaterThanEqual'), version_parse(e, Str(ver[1]))])) if ver else NONE()
         if how == 'parse':
-            t = list(name) + ((o(' (>= ') + ver[1] + [41]) if ver else [])
+            pad = e.choose('opad', 2) if self.case.get('pad') else 0
+            t = list(name) + ((o(' (>= ') + ver[1] + [41]) if ver else []) + ([32] if pad else [])
             r = e.call_path('control', '<%sRelation as FromStr>::from_str' % RL, [Str(t)])
             if r.variant != 'Ok': raise Unsupported('operand text rejected')
             rel = r.slots[0]
@@ -57,10 +59,11 @@ class C11(Harness):
             if ver: b = e.call_path('control', RL + 'RelationBuilder::version_constraint', [b, EnumV(vck, 'GreaterThanEqual'), version_parse(e, Str(ver[1]))])
             rel = e.call_path('control', RL + 'RelationBuilder::build', [b])
         spec = {'name': name, 'archqual': None, 'version': ver, 'archs': None, 'profiles': [], 'features': []}
-        desc = {'how': how, 'name': Str(name), 'version': [ver[0], Str(ver[1])] if ver else None}
+        desc = {'how': how, 'name': Str(name), 'version': [ver[0], Str(ver[1])] if ver else None, 'pad': bool(how == 'parse' and pad)}
         return rel, spec, desc
 
     def run(self, e, case):
+        self.case = case
         g = RelGen(e, case['cfg'])
         if case.get('allow_empty') and e.choose('emptyfield', 2): text, entries = [], []
         else: text, entries = g.field()
